@@ -22,6 +22,43 @@ func keyClassOf(v ssa.Value, depth int) string {
 	switch x := v.(type) {
 	case *ssa.MakeInterface:
 		return keyClassOf(x.X, depth)
+	case *ssa.TypeAssert:
+		return keyClassOf(x.X, depth)
+	case *ssa.Parameter:
+		// the element handed to the callback of <index>.Ascend*(func(item) ..): a key of THAT index
+		cb := x.Parent()
+		if cb == nil || cb.Parent() == nil {
+			return ""
+		}
+		for _, call := range core.Calls(cb.Parent()) {
+			o := core.CalleeObj(call)
+			if o == nil || !strings.HasPrefix(o.Name(), "Ascend") && !strings.HasPrefix(o.Name(), "Descend") {
+				continue
+			}
+			for _, a := range call.Common().Args {
+				if ct, isCT := a.(*ssa.ChangeType); isCT {
+					a = ct.X
+				}
+				mc, ok := a.(*ssa.MakeClosure)
+				if !ok || mc.Fn != ssa.Value(cb) {
+					continue
+				}
+				rv := core.Receiver(call)
+				if rv == nil {
+					continue
+				}
+				if _, fld, base, ok := core.FieldOf(rv); ok {
+					if fld == "data" {
+						if _, f2, _, ok2 := core.FieldOf(base); ok2 {
+							return "elements-of:" + f2
+						}
+					}
+					// a wrapper owning its tree (txArrivedTimeMap.index): the identity used for the wrapper's methods
+					return "elements-of:" + core.RecvTypeName(base.Type()) + "." + fld
+				}
+			}
+		}
+		return ""
 	case *ssa.Alloc:
 		tn := core.RecvTypeName(x.Type())
 		if i := strings.LastIndex(tn, "."); i >= 0 {
@@ -207,11 +244,28 @@ func (c *Ctx) c19KeyAgreement() {
 		}
 		for _, s := range ss {
 			nSites++
+			if strings.HasPrefix(s.class, "elements-of:") {
+				// a key taken out of another index: it has that index's key class
+				src := strings.TrimPrefix(s.class, "elements-of:")
+				s.class = ""
+				for other, oss := range byIndex {
+					if other == src || strings.HasSuffix(other, "."+src) {
+						for _, os := range oss {
+							if strings.HasPrefix(os.op, "ReplaceOrInsert") && os.class != "" && !strings.HasPrefix(os.class, "elements-of:") {
+								s.class = os.class + " (an element of " + src + ")"
+								if other == idx {
+									s.class = os.class
+								}
+							}
+						}
+					}
+				}
+			}
 			if s.class == "" {
 				r.Note("R19.5", "index "+idx+": "+s.fn+" "+s.op, s.pos, "receives its key from the caller (not classified)")
 				continue
 			}
-			r.Check(s.class == refs[0], "R19.5", "index "+idx+": "+s.fn+" "+s.op+" uses the index's key", s.pos, refs[0],
+			r.Check(s.class == refs[0] || strings.HasPrefix(s.class, refs[0]+" (an element of "), "R19.5", "index "+idx+": "+s.fn+" "+s.op+" uses the index's key", s.pos, refs[0],
 				"this index is keyed by "+refs[0]+" but the key used here is "+s.class+": the probe/removal never matches the stored entry (a ready transaction is not recognised as ready, or a stale entry survives)")
 		}
 	}
